@@ -299,9 +299,22 @@ def run(prog: Program) -> Results:
             cfg = cfg or CFG(f.node)
             node = cfg.containing(c)
             clearing = []
+            # the layout handed over may be a copy / derivation of the one that was cleared (`shown = layout`,
+            # `shown = layout.model_copy(update={…})`): the clearing of the source counts
+            family, todo_ = {L}, [L]
+            while todo_:
+                x_ = todo_.pop()
+                for d_ in ast.walk(f.node):
+                    if isinstance(d_, ast.Assign) and any(isinstance(t_, ast.Name) and t_.id == x_ for t_ in d_.targets):
+                        src_ = d_.value
+                        if isinstance(src_, ast.Call) and isinstance(src_.func, ast.Attribute) and src_.func.attr == "model_copy":
+                            src_ = src_.func.value
+                        if isinstance(src_, ast.Name) and src_.id not in family:
+                            family.add(src_.id)
+                            todo_.append(src_.id)
             for n in cfg.nodes:
                 a = n.ast
-                if isinstance(a, ast.Assign) and any(isinstance(t, ast.Name) and t.id == L for t in a.targets):
+                if isinstance(a, ast.Assign) and any(isinstance(t, ast.Name) and t.id in family for t in a.targets):
                     if clears(a.value) or (isinstance(a.value, ast.Call) and helper_clears(f, a.value, it)):
                         clearing.append(n)
             empty = edges_establishing(cfg, lambda a, t, _it=it: (norm(a) == _it and t is False) or (norm(a) == f"not {_it}" and t is True))
